@@ -12,7 +12,7 @@ Local Arguments n_up : simpl never.
 Definition halfway_w (w : einfo -> Q) (t t' : utree) : Prop :=
   exists a b d da db,
     In (a, b, d) (pairdists w t) /\
-    (forall x, In x (pairdists w t) -> (snd x <= d)%Q) /\
+    (forall x, In x (pairdists w t) -> (snd x <= d)%Q) /\ (0 < d)%Q /\
     In (a, da) (depths w t') /\ In (b, db) (depths w t') /\
     (da == d * (1 # 2))%Q /\ (db == d * (1 # 2))%Q.
 
@@ -56,8 +56,8 @@ Theorem reroot_midpoint_halfway t t' :
   halfway_w elen t t'.
 Proof.
   intros Hwf Hd Hi Hnn HND H.
-  destruct (reroot_midpoint_scan _ _ H) as (q&lf&v&pA&cur&ea0&Hin&Hv&Hm&Hcur&Hall&He&Hres).
   destruct (unroot_stage t Hwf Hd Hi) as [W1 [D1 [L1 _]]].
+  destruct (reroot_midpoint_scan _ _ D1 H) as (q&lf&v&pA&cur&ea0&Hin&Hv&Hm&Hcur&Hall&He&Hres).
   assert (P1 : dists_equiv (pairdists elen (unroot t)) (pairdists elen t)).
   { destruct (rooted t) eqn:Hr.
     - apply unroot_pairdists_elen; auto.
@@ -225,7 +225,7 @@ Proof.
     destruct (Hinv eq_refl) as [dx [Hdx Edx]].
     assert (dx = dB) by (eapply (depth_unique elen A'); eauto). subst dx.
     exists (elen eP + daR)%Q, (elen eC + dbc)%Q.
-    split; [exact HD0|]. split; [exact Hmax|].
+    split; [exact HD0|]. split; [exact Hmax|]. split; [rewrite ED; exact Hcur|].
     rewrite root2_depths.
     split; [apply in_or_app; right; unfold shift; apply in_map_iff; exists (na, daR); auto|].
     split; [apply in_or_app; left; unfold shift; apply in_map_iff; exists (nb, dbc); auto|].
@@ -282,7 +282,7 @@ Proof.
     destruct (Hinv eq_refl) as [dx [Hdx Edx]].
     assert (dx = dB) by (eapply (depth_unique elen A'); eauto). subst dx.
     exists (elen eC + 0)%Q, (elen eP + dbR)%Q.
-    split; [exact HD0|]. split; [exact Hmax|].
+    split; [exact HD0|]. split; [exact Hmax|]. split; [rewrite ED; exact Hcur|].
     rewrite S4, root2_depths.
     split; [apply in_or_app; right; rewrite Dcc; simpl; now left|].
     split; [apply in_or_app; left; unfold shift; apply in_map_iff; exists (nb, dbR); auto|].
